@@ -45,7 +45,7 @@ func (ex *Exec) symbolicArgs(fn *ssa.Function) []Value {
 
 // verifyContract executes fn on symbolic arguments with its loops cut by their invariants, and adds:
 // one obligation per ensures clause, per loop-invariant initiation/preservation, and per potential panic.
-func verifyContract(w *World, c *Check, cs *Contracts, prop, name string, loopsOf []string, extraPre func(r *contractRun) []*Term) *contractRun {
+func verifyContract(w *World, c *Check, cs *Contracts, prop, name string, loopsOf []string, extraPre func(r *contractRun) []*Term, setup ...func(ex *Exec)) *contractRun {
 	var run *contractRun
 	guard(c, prop+"/"+name, func() {
 		fs := cs.Funcs[name]
@@ -54,6 +54,9 @@ func verifyContract(w *World, c *Check, cs *Contracts, prop, name string, loopsO
 		}
 		ex := w.NewExec()
 		ex.UseLoops(cs, append([]string{name}, loopsOf...)...)
+		for _, f := range setup {
+			f(ex)
+		}
 		st := newState()
 		fn := w.lookupFn(name)
 		args := ex.symbolicArgs(fn)
